@@ -409,9 +409,14 @@ func (t *T) run(st rpc.Stream, codec string) error {
 		return finish(errs[0], "")
 	}
 	down := uint32(0)
-	for {
+	for nr := 0; ; nr++ {
 		box := NewBox(codec)
-		if err := st.ReadMessage(nil, box.Ptr()); err != nil {
+		// handlers, too, pass buffers of their own of varying capacity
+		var ubuf []byte
+		if c := []int{-1, 0, 24, 512, 66000}[(int(rec.Serial)+nr)%5]; c >= 0 {
+			ubuf = make([]byte, c)
+		}
+		if err := st.ReadMessage(ubuf, box.Ptr()); err != nil {
 			return finish(err.Error(), "")
 		}
 		b := box.Get()
